@@ -787,12 +787,21 @@ def _popped_level(ctx, rule):
     from . import c10
     return c10.r18_popped_level_read_once(ctx, rule)
 
+def _shared_rule(mod, name, **kw):
+    def run(ctx, rule):
+        import importlib
+        return getattr(importlib.import_module('sa.props.' + mod), name)(ctx, rule, **kw)
+    return run
+
+
 def rules(tier):
     return [('C04.R1', r1_dispatch), ('C04.R2', r2_structural_recursion), ('C04.R3', r3_mask_slices),
             ('C04.R4', r4_count_write_pairing), ('C04.R5', r5_grouping_kernel), ('C04.R7', r7_group_cardinality),
             ('C04.R8', _exact_float),
             ('C04.R9', _mask_insertion), ('C04.R10', _omen_last), ('C04.R11', _omen_cursor), ('C04.R12', r12_output_point_total),
-            ('C04.R13', _omen_domain), ('C04.R14', _omen_prune), ('C04.R15', _omen_lengths), ('C04.R16', _omen_cache_hit), ('C04.R17', _omen_memo_key), ('C04.R18', _popped_level)] + _loader_bundle() + []
+            ('C04.R13', _omen_domain), ('C04.R14', _omen_prune), ('C04.R15', _omen_lengths), ('C04.R16', _omen_cache_hit), ('C04.R17', _omen_memo_key), ('C04.R18', _popped_level),
+            # C04-ca: the remaining size lands in is_honeyword - one random value per group instead of the product
+            ('C04.R19', _shared_rule('c17', 'r1_size_bound'))] + _loader_bundle() + []
 
 
 META = {
